@@ -43,8 +43,6 @@ def arg_for(call, g, p, detail):
     for kw in call.keywords:
         if kw.arg == p:
             return kw.value
-        if kw.arg is None:
-            return "unknown"
     if p in params:
         i = params.index(p)
         if i < len(call.args):
@@ -52,6 +50,10 @@ def arg_for(call, g, p, detail):
                 if isinstance(a, ast.Starred):
                     return "unknown"
             return call.args[i]
+        if any(isinstance(a, ast.Starred) for a in call.args):
+            return "unknown"
+    if any(kw.arg is None for kw in call.keywords):
+        return "unknown"
     return None
 
 
